@@ -4,7 +4,8 @@
    sequence and EVERY arrangement that does not ask for more residues of a class than the parent has, the translated code
    returns exactly Model.Delta.permutant.  str(x) is the primitive "str" (the identity on strings), sum([...]) "sum". *)
 From Coq Require Import List String Ascii ZArith QArith Bool Arith Lia.
-From LC Require Import Core.Residue Core.MiniPy Model.Delta Gen.GMiniPy.
+From Coq Require Import Permutation.
+From LC Require Import Core.Residue Core.Lists Core.MiniPy Spec.Delta Model.Delta Proofs.Permutant Gen.GMiniPy.
 Import ListNotations.
 Local Open Scope Z_scope.
 
@@ -214,6 +215,29 @@ Proof.
   rewrite E8. cbn [MiniPy.exec_list]. rewrite (exec_return_ok _ _ _ (eq_trans (eval_var _ _) H8) eq_refl). reflexivity.
 Qed.
 Print Assumptions permutant_tie.
+
+(* ---------- with Proofs/Permutant.v: what the translated code returns is a rearrangement of the parent with the arrangement's pattern ---------- *)
+Lemma need_counts cand : Z.of_nat (need cand tpos) = npos cand /\ Z.of_nat (need cand tneg) = nneg cand /\ Z.of_nat (need cand tneu) = nneut cand.
+Proof.
+  unfold nneut, len, npos, nneg, need. induction cand as [|z cand [I1 [I2 I3]]]; [repeat split|].
+  cbn [filter cnt List.length]. unfold tpos, tneg, tneu, isposb, isnegb in *.
+  destruct (0 <? z) eqn:E1; destruct (z <? 0) eqn:E2; cbn [negb andb List.length]; repeat split; try lia;
+    apply Z.ltb_lt in E1; apply Z.ltb_lt in E2; lia.
+Qed.
+
+Corollary permutant_code_rearranges (parent : list aa) (cand : list Z) r :
+  lookup "parentSeqObj.seq" r = VStr (map aa_char parent) -> lookup "self.seq" r = VStr (map trit_char cand) ->
+  Forall trit cand -> comp cand = comp (pat parent) ->
+  exists out, exec g_permutant r = ORet (VStr (map aa_char out)) /\ Permutation out parent /\ pat out = cand.
+Proof.
+  intros Hp Hs Ht Hc. exists (permutant parent cand). split; [| split; [apply permutant_perm; assumption | apply permutant_pat; assumption]].
+  destruct (need_counts cand) as [N1 [N2 N3]]. destruct (pat_counts parent) as [P1 [P2 _]].
+  pose proof (three_classes parent) as T3. unfold comp in Hc. injection Hc as H1 H2 H3.
+  assert (L : len (pat parent) = len parent) by (unfold len, pat; now rewrite map_length).
+  unfold nneut in H3 at 2. unfold len in *. unfold is_pos, is_neg, is_neu in *.
+  apply permutant_tie; try assumption; unfold is_pos, is_neg, is_neu; lia.
+Qed.
+Print Assumptions permutant_code_rearranges.
 
 (* with Proofs/Permutant.v (permutant_perm, permutant_pat): when the arrangement has the parent's class counts the string the
    translated code returns is a rearrangement of the parent whose charge pattern is the arrangement *)
